@@ -1,12 +1,15 @@
-"""prints the table of DESIGN.md §0.6 from seeded/*/meta.json"""
-import json, glob, os
+"""prints the table of DESIGN.md §0.6 from seeded/<Cxx>-<n>/meta.json"""
+import json, glob, os, re
 print("| id | change | round | mechanism (title given by its author) | needs, in short | first run | now |")
 print("|---|---|---|---|---|---|---|")
-for d in sorted(glob.glob(os.path.join(os.path.dirname(__file__), "..", "..", "seeded", "C[0-9][0-9]"))):
-    meta = json.load(open(d + "/meta.json"))
-    for i, c in enumerate(meta["changes"], 1):
-        first = "missed" if "VIOLATION lines: 0" in c["first_confirmation"]["check"] else "reported"
-        now = "reported" if "rc=1" in c["current_check"] else "MISSED"
-        what = c["what"].replace("|", "/")
-        need = c.get("needs_to_manifest", "").replace("|", "/").replace("\n", " ")[:90]
-        print(f"| {meta['property']} | {i} | {c.get('round', '')} | {what[:110]} | {need} | {first} | {now} |")
+root = os.path.join(os.path.dirname(__file__), "..", "..", "seeded")
+ds = [d for d in glob.glob(os.path.join(root, "C[0-9][0-9]-*")) if os.path.exists(d + "/meta.json")]
+def key(d):
+    m = re.match(r"C(\d+)-(\d+)$", os.path.basename(d)); return (int(m.group(1)), int(m.group(2)))
+for d in sorted(ds, key=key):
+    c = json.load(open(d + "/meta.json"))
+    first = "missed" if "VIOLATION lines: 0" in c["first_confirmation"]["check"] else "reported"
+    now = "reported" if "rc=1" in c["current_check"] else "MISSED"
+    what = c["what"].replace("|", "/")
+    need = c.get("needs_to_manifest", "").replace("|", "/").replace("\n", " ")[:90]
+    print(f"| {c['property']} | {c['change']} | {c.get('round', '')} | {what[:110]} | {need} | {first} | {now} |")
